@@ -1832,7 +1832,7 @@ static int32 getTicketKeys(ssl_t *ssl, unsigned char *c,
     {
         if (Memcmp(lkey->name, name, 16) == 0)
         {
-            lkey->inUse = 1;
+            lkey->inUse++; /* a count: several resumptions can hold the same key */
             *keys = lkey;
             /* Have the key. Invoke callback with SUCCESS */
             if (ssl->keys->ticket_cb)
@@ -1860,7 +1860,7 @@ static int32 getTicketKeys(ssl_t *ssl, unsigned char *c,
             {
                 /* inUse could be set in the odd case where we
                    found the cached key but the user didn't want to use it. */
-                lkey->inUse = 0;
+                lkey->inUse--;
             }
             return PS_FAILURE; /* user couldn't find it either */
         }
@@ -1881,7 +1881,7 @@ static int32 getTicketKeys(ssl_t *ssl, unsigned char *c,
             {
                 return PS_FAILURE; /* user claims to have added, but... */
             }
-            lkey->inUse = 1;
+            lkey->inUse++; /* a count: several resumptions can hold the same key */
             *keys = lkey;
         }
         return PS_SUCCESS;
@@ -1943,7 +1943,7 @@ int32 matrixUnlockSessionTicket(ssl_t *ssl, unsigned char *in, int32 inLen)
     psAesInitCBC(&ctx, c, keys->symkey, keys->symkeyLen, PS_AES_DECRYPT);
     psAesDecryptCBC(&ctx, c + 16, c + 16, len - 16 - 16 - L_HASHLEN);
     psAesClearCBC(&ctx);
-    keys->inUse = 0;
+    keys->inUse--;
     psUnlockMutex(&g_sessTicketLock);
 
     /* decrypted marker */
